@@ -180,10 +180,11 @@ PROPERTIES = {
         'technique': TECH,
     },
     'C17': {
+        'main_scenarios': ['voltage'],
         'units': SM_KICK + SM_FP + [sm.IdentityApply, sm.KickMapApplyTo, sm.FokkerPlanckApplyTo, sm.SourceMapApplyToAll,
                                     ps.RulerCtor, ps.SimpsonWeights, ps.UpdateXProjection, ps.UpdateYProjection, ps.Integrate, ps.Normalize, ps.Average, ps.Variance, ps.Swap, ps.MakePSFromTXTLoop, ps.PhaseSpaceCtor, ps.PhaseSpaceCtor8, ps.PhaseSpaceCtor12, ps.PhaseSpaceCopyCtor, ps.CreateFromProjections, ps.Gaus,
                                     ef.PadBunchProfiles, ef.WakePotential, ef.UpdateCSR, ef.ElectricFieldCtor, ef.ElectricFieldCtor11, ef.InitWakeLossFFT,
-                                    mainspec.MainConfig, mainspec.MainTrackingFile, mainspec.MainStartDistribution, mainspec.MainMaps, mainspec.MainFields, io.HDF5FileSources, io.HDF5AppendField, io.HDF5AppendTracks, io.HDF5MakeDatasetInfo3f, io.HDF5MakeDatasetInfo1f, io.HDF5MakeDatasetInfo1u, io.HDF5MakeDatasetInfo2f, io.HDF5MakeDatasetInfo4f, io.HDF5AppendData3f, io.HDF5AppendData2f, io.HDF5AppendData1f, io.HDF5AppendData4f, io.HDF5AppendData2a, io.HDF5AppendData3p, io.ReadPhaseSpace, io.ProgramOptionsGetters] + Z_UNITS,
+                                    mainspec.MainConfig, mainspec.MainVoltage, mainspec.MainTrackingFile, mainspec.MainStartDistribution, mainspec.MainMaps, mainspec.MainFields, io.HDF5FileSources, io.HDF5AppendField, io.HDF5AppendTracks, io.HDF5MakeDatasetInfo3f, io.HDF5MakeDatasetInfo1f, io.HDF5MakeDatasetInfo1u, io.HDF5MakeDatasetInfo2f, io.HDF5MakeDatasetInfo4f, io.HDF5AppendData3f, io.HDF5AppendData2f, io.HDF5AppendData1f, io.HDF5AppendData4f, io.HDF5AppendData2a, io.HDF5AppendData3p, io.ReadPhaseSpace, io.ProgramOptionsGetters] + Z_UNITS,
         'leaves': [leaf.UpperPow2Leaf, leaf.FPApplyToLeaf, leaf.KickApplyToLeaf, leaf.PSxLeaf, leaf.PSyLeaf],
         'lemmas': [],
         'level': 'other',
